@@ -168,10 +168,21 @@ type c09Replay struct {
 	A      string `json:"session_a,omitempty"`
 	B      string `json:"session_b,omitempty"`
 	Detail string `json:"detail,omitempty"`
+	// KM: a key-material case (c09_keymat.go); `-replay` re-runs exactly this one
+	KM *kmReplay `json:"key_material,omitempty"`
 }
 
 func runC09(c *ctx) {
 	r := c.res.Rng
+	if c.replay != "" {
+		var rp c09Replay
+		if err := readJSON(c.replay, &rp); err == nil && rp.KM != nil {
+			c.res.Rule = "replay of one key-material case"
+			c.res.Note("replay: only the key-material case %+v", *rp.KM)
+			c.c09KeyMaterial(rp.KM)
+			return
+		}
+	}
 	c.res.Rule = "session tags: random parameter sets (adversarial identifier sets, nil/empty session id, invalid thresholds) compared byte-exactly with the model; " +
 		"one-parameter variants must differ; cross-session replay on real handlers (xor, FROST keygen, Doerner keygen vs sign); non-trivial = valid parameters; distinct by parameter set"
 	n := 250
@@ -231,6 +242,7 @@ func runC09(c *ctx) {
 		}
 	}
 	c.c09Replay()
+	c.c09KeyMaterial(nil)
 }
 
 func stateFP(n *Node) string {
